@@ -44,6 +44,43 @@ type vC17TrSays struct {
 
 func (t *vC17TrSays) Internal() bool { return t.says }
 
+// vC17Slab is a long-lived transport of the kind the server's engines keep (udpJob / tcpJob): ONE value that is
+// bound to its chain again for every packet it carries while the remote it reports changes from packet to packet —
+// the IP bytes are rewritten in place over a scratch array, as udpJob.setRemote does.
+type vC17Slab struct {
+	vC17Tr
+	udp     net.UDPAddr
+	tcp     net.TCPAddr
+	ipa     net.IPAddr
+	scratch [16]byte
+}
+
+func (s *vC17Slab) set(kind int, ip net.IP, port int) {
+	var view net.IP
+	if ip != nil {
+		view = append(s.scratch[:0], ip...)
+	}
+	switch kind {
+	case 0:
+		s.udp.IP, s.udp.Port = view, port
+		s.addr = &s.udp
+	case 1:
+		s.tcp.IP, s.tcp.Port = view, port
+		s.addr = &s.tcp
+	default:
+		s.ipa.IP = view
+		s.addr = &s.ipa
+	}
+}
+
+// ... and one that has the Internal() method
+type vC17SlabSays struct {
+	vC17Slab
+	says bool
+}
+
+func (t *vC17SlabSays) Internal() bool { return t.says }
+
 func vC17CoqIP(ip net.IP) string {
 	switch len(ip) {
 	case 4:
@@ -291,5 +328,75 @@ func TestVerifC17Writer(t *testing.T) {
 			"nontrivial": true,
 			"desc":       map[string]any{"entry": entry, "remote_addr_type": kindName, "ip": fmt.Sprint([]byte(ip)), "port": port, "transport_internal_method": says, "writer_internal": internal, "writer_remote_ip": fmt.Sprint(rip)},
 		})
+	}
+
+	// ---- rebinding: long-lived transports (the engines' job slabs) bound to a long-lived chain packet after packet
+	// while their remote changes (family, byte form, address type, port, what Internal() says): after every binding the
+	// writer speaks for the packet's OWN remote, whatever the transport reported the last time it was bound
+	{
+		plain := &vC17Slab{}
+		decl := &vC17SlabSays{}
+		slabCh := [2]*Chain{NewChain([]Handler{}), NewChain([]Handler{})}
+		var rcore []combo
+		for _, c := range core {
+			if ips[c.ipi].ip == nil || len(ips[c.ipi].ip) <= 16 {
+				rcore = append(rcore, c)
+			}
+		}
+		r.Shuffle(len(rcore), func(i, j int) { rcore[i], rcore[j] = rcore[j], rcore[i] })
+		nr := 60 + n/4
+		if nr > len(rcore) {
+			nr = len(rcore)
+		}
+		prev := [2]string{"(never bound)", "(never bound)"}
+		for i, c := range rcore[:nr] {
+			ip, port := ips[c.ipi].ip, ports[c.porti]
+			kind := c.kind
+			if i%11 == 10 {
+				kind = 2 // a foreign address type in between
+			}
+			which := 0
+			says := "None"
+			var tr Transport = plain
+			if c.says > 0 {
+				which = 1
+				decl.says = c.says == 2
+				says = fmt.Sprintf("(Some %v)", decl.says)
+				tr = decl
+				decl.set(kind, ip, port)
+			} else {
+				plain.set(kind, ip, port)
+			}
+			ch := slabCh[which]
+			entry := "Chain.ResetWire"
+			if i%5 == 4 { // mostly the wire entry (what the jobs use), the decoded one now and then
+				entry = "Chain.Reset"
+				req := new(dns.Msg)
+				req.SetQuestion("w.c17.test.", dns.TypeA)
+				ch.Reset(tr, req)
+			} else {
+				ch.ResetWire(tr, &Request{})
+			}
+			internal := ch.Writer.Internal()
+			rip := append(net.IP(nil), ch.Writer.RemoteIP()...)
+			if ch.Writer.RemoteIP() == nil {
+				rip = nil
+			}
+			remote := vC17CoqRemote(tr.RemoteAddr(), says)
+			if kind == 2 {
+				remote = fmt.Sprintf("(mk_remote KOther %s %d %s)", vC17CoqIP(ip), port, says)
+			}
+			k := "writer-rebind-client"
+			if internal {
+				k = "writer-rebind-internal"
+			}
+			emit(map[string]any{
+				"k":          k,
+				"coq":        fmt.Sprintf("CaseWriter %s %v %s", remote, internal, vC17CoqIP(rip)),
+				"nontrivial": true,
+				"desc":       map[string]any{"entry": entry, "same_transport_rebound": true, "bound_before_to": prev[which], "remote_addr_type": []string{"*net.UDPAddr", "*net.TCPAddr", "*net.IPAddr"}[kind], "ip": fmt.Sprint([]byte(ip)), "port": port, "transport_internal_method": says, "writer_internal": internal, "writer_remote_ip": fmt.Sprint(rip)},
+			})
+			prev[which] = fmt.Sprintf("%v:%d", []byte(ip), port)
+		}
 	}
 }
